@@ -95,7 +95,13 @@ func (cas c02Cash) build() (s string, prefixed string) {
 // fold applies the documented normalisations: ASCII lower-casing and removal of one leading
 // "prefix:".
 func fold(s string) string {
-	s = strings.ToLower(s)
+	b := []byte(s) // ASCII case folding only: nothing but A-Z changes
+	for i, ch := range b {
+		if ch >= 'A' && ch <= 'Z' {
+			b[i] = ch + 32
+		}
+	}
+	s = string(b)
 	if i := strings.IndexByte(s, ':'); i >= 0 {
 		s = s[i+1:]
 	}
@@ -532,6 +538,45 @@ func runC02(c *mc.Ctx) {
 		c02EvalPub(w, c02Pub{Net: ref.Nets[idx[0]].Name, First: idx[1], Shape: c02PubShapes[idx[2]], Point: pt, Upper: idx[4] == 1})
 	})
 	c.Sample("pubhex", c02Pub{Net: "mainnet", First: 5, Shape: "xy65", Point: 0})
+
+	// (C2) every one of the 256 byte values substituted at every position of valid addresses (bare and
+	// prefix-qualified, lower and upper case): a byte that is not the original character (up to ASCII
+	// case) must never be accepted as "the same" address
+	{
+		type sc struct {
+			net, s string
+		}
+		var subs []sc
+		for _, nn := range []string{"mainnet", "testnet3", "simnet"} {
+			rn := refNet(nn)
+			h := make([]byte, 20)
+			for i := range h {
+				h[i] = byte(0x11 * (i%13 + 1))
+			}
+			pay := ref.CashEncode(rn.CashPrefix, 0, h)
+			bases := []string{pay, strings.ToUpper(pay), rn.CashPrefix + ":" + pay}
+			if rn.SlpPrefix != "" {
+				bases = append(bases, ref.CashEncode(rn.SlpPrefix, 1, h))
+			}
+			for _, b := range bases {
+				for pos := 0; pos < len(b); pos++ {
+					for v := 0; v < 256; v++ {
+						if byte(v) == b[pos] {
+							continue
+						}
+						m := []byte(b)
+						m[pos] = byte(v)
+						subs = append(subs, sc{nn, string(m)})
+					}
+				}
+			}
+		}
+		c.Space("every byte value at every position of valid cashaddr strings", int64(len(subs)))
+		c.ParFor(int64(len(subs)), func(w *mc.W, i int64) {
+			w.State()
+			c02EvalStr(w, c02Str{Net: subs[i].net, S: subs[i].s})
+		})
+	}
 
 	// (D) literals
 	lits := []string{
